@@ -8,8 +8,17 @@ Oracle (from the statement only):
     different objects whose values (incl. inputs assigned into one instance) do not influence each other;
   * after any edit of the definitions an old handle (instance, child space, cells) either raises
     DeletedObjectError or serves exactly the values of the current definitions, and once the instance is
-    obtained again the old handle raises or *is* the re-obtained object.
+    obtained again the old handle raises or *is* the re-obtained object;
+  * "child spaces replicated": every space replicated inside an instance has the `parameters` of the space it
+    replicates in the static copy (an old space handle that is alive too), and when that space is parametrised,
+    indexing the replica gives an instance that is compared with the static copy in the same way (so do the
+    sibling cells that index it, e.g. `C[2].h(1)`, which must stay inside the instance).
+
+Part F explores the histories in which a space WITHOUT parameter formula gets its first one (`s.formula = ...`,
+`s.set_formula(...)`, `s.parameters = ...`) while live instances contain a dynamic copy of it: as child /
+grandchild of a parametrised space, below a parametrised child, or chosen through 'base' / 'bases'.
 """
+import inspect
 from common import *
 from c07_spec import *
 from modelx.core.errors import DeletedObjectError
@@ -115,8 +124,77 @@ def T_baseskey():
     return "baseskey", sp, insts, {}
 
 
+# templates of part F: live instances contain dynamic copies of PLAIN spaces (no parameter formula) that the
+# history parametrises; "latent" sibling cells index the copy (`C[2]`, `C.D[3]`, `OC[2]`) and so raise - in the
+# instance as in the static copy - until the space has parameters, and must then stay inside the instance
+
+
+def F_child():
+    """plain child C and grandchild C.D of a parametrised space"""
+    sp = Spec(refs={"g": lit(100)}, spaces={
+        "S": S_(formula={"params": "i"},
+                cells={"own": C_("lambda x: C.h(x) + i"),
+                       "tot": C_("lambda: C[2].h(1) + C[2].D.d()"),
+                       "tot2": C_("lambda: C.D[3].d() + g")},
+                spaces={"C": S_(cells={"h": C_("lambda y: i*10 + y + cr")},
+                                refs={"cr": lit(7)},
+                                spaces={"D": S_(cells={"d": C_("lambda: i + 1")})})}),
+    })
+    insts = [(("S",), (("item", (1,)),)), (("S",), (("item", (2,)),))]
+    return "f-child", sp, insts, {}
+
+
+def F_deep():
+    """plain D and D.E below a parametrised child C(k) of a parametrised space: copies in S[1].C[2], S[1], S.C[4]"""
+    sp = Spec(spaces={
+        "S": S_(formula={"params": "i"},
+                cells={"p": C_("lambda: i*10")},
+                spaces={"C": S_(formula={"params": "k"},
+                                cells={"h": C_("lambda y: i*100 + k*10 + y"),
+                                       "up": C_("lambda: D.d() + D.E.e()"),
+                                       "lat": C_("lambda: D[5].d() + D[5].E.e()"),
+                                       "lat2": C_("lambda: D.E[6].e()")},
+                                spaces={"D": S_(cells={"d": C_("lambda: i + 1")},
+                                                spaces={"E": S_(cells={"e": C_("lambda: i + 2")})})})}),
+    })
+    insts = [(("S",), (("item", (1,)), ("child", "C"), ("item", (2,)))),
+             (("S",), (("item", (1,)),)),
+             (("S", "C"), (("item", (4,)),))]
+    return "f-deep", sp, insts, {}
+
+
+def _F_base(kind, base_key, base=("O",)):
+    # the ref `k` returned by the formula is read where it is bound: in the chosen base only
+    kq, koc = (" + k", "") if tuple(base) == ("O",) else ("", " + k")
+    sp = Spec(refs={"g": lit(100)}, spaces={
+        "O": S_(cells={"q": C_("lambda x: x + orf" + kq), "lat": C_("lambda: OC[2].oc(1)")}, refs={"orf": lit(4)},
+                spaces={"OC": S_(cells={"oc": C_("lambda y: i*2 + y" + koc), "lat": C_("lambda: OD[3].od()")},
+                                 spaces={"OD": S_(cells={"od": C_("lambda: i + g")})})}),
+        "S": S_(formula={"params": "i", "base": tuple(base), "base_key": base_key, "refs": {"k": "i*10"}},
+                cells={"own": C_("lambda: 1")}),
+    })
+    insts = [(("S",), (("item", (1,)),)), (("S",), (("item", (3,)),))]
+    return kind, sp, insts, {}
+
+
+def F_basekey():
+    """plain O (and O.OC, O.OC.OD) chosen by `{'base': O}`"""
+    return _F_base("f-basekey", None)
+
+
+def F_baseskey():
+    """the same chosen by `{'bases': [O]}`"""
+    return _F_base("f-baseskey", "bases")
+
+
+def F_basechild():
+    """a plain child space O.OC chosen by `{'base': O.OC}`"""
+    return _F_base("f-basechild", None, ("O", "OC"))
+
+
 TEMPLATES = [T_inherit, T_nested, T_otherbase, T_readscells, T_objrefs, T_shadow, T_defaults]
 PART_A_ONLY = [T_baseskey]
+F_TEMPLATES = [F_child, F_deep, F_basekey, F_baseskey, F_basechild]
 
 # ------------------------------------------------------------------------------------------ oracle
 
@@ -270,7 +348,87 @@ def expected(spec, inst):
 
 
 def names_tree(s):
-    return {"cells": sorted(s.cells), "spaces": {n: names_tree(s.named_spaces[n]) for n in sorted(s.named_spaces)}}
+    """member names and `parameters` of a (static or dynamic) space and of its replicated child spaces"""
+    return {"cells": sorted(s.cells), "params": s.parameters,
+            "spaces": {n: names_tree(s.named_spaces[n]) for n in sorted(s.named_spaces)}}
+
+
+def names_only(t):
+    return {"cells": t["cells"], "spaces": {n: names_only(c) for n, c in t["spaces"].items()}}
+
+
+def params_at(t, rp):
+    """(found, parameters) of the space at relative path rp of a names tree"""
+    for n in rp:
+        if n not in t["spaces"]:
+            return False, None
+        t = t["spaces"][n]
+    return True, t["params"]
+
+
+def first_params_diff(a, b, prefix=()):
+    """relative path of the first space whose parameters differ (trees with equal member names)"""
+    if a["params"] != b["params"]:
+        return prefix
+    for n in a["spaces"]:
+        d = first_params_diff(a["spaces"][n], b["spaces"][n], prefix + (n,))
+        if d is not None:
+            return d
+    return None
+
+
+def sample_args(params):
+    """arguments for indexing a dynamic copy: one int per parameter without default"""
+    sig = inspect.signature(eval("lambda %s: None" % params))
+    return tuple(2 + i for i, p in enumerate(q for q in sig.parameters.values() if q.default is q.empty))
+
+
+def inst_target(spec, inst):
+    """(static path the instance is a copy of, how its last item step chose it: None | 'base' | 'bases');
+    raises NoInstance like static_copy (navigation only, no binding)"""
+    cur, via = tuple(inst[0]), None
+    if not spec.has_space(cur):
+        raise NoInstance("no space")
+    for st in inst[1]:
+        if st[0] == "item":
+            f = spec.space(cur)["formula"]
+            if not isinstance(f, dict):
+                raise NoInstance("no formula")
+            via = None
+            if f.get("base") is not None:
+                if not spec.has_space(f["base"]):
+                    raise NoInstance("base gone")
+                cur, via = tuple(f["base"]), f.get("base_key") or "base"
+        else:
+            if st[1] not in spec.space(cur)["spaces"]:
+                raise NoInstance("no child")
+            cur = cur + (st[1],)
+    return cur, via
+
+
+def derived_insts(spec, insts):
+    """'indexing the dynamic copy works as in the base': for every instance that can exist, one item of every
+    parametrised space replicated inside it (any depth), and of the instance itself when its base was chosen
+    through the 'base'/'bases' key (plain item-of-item is a listed instance of template `nested`)"""
+    out = []
+    for inst in insts:
+        try:
+            tgt, via = inst_target(spec, inst)
+        except NoInstance:
+            continue
+        if expected(spec, inst) == ("exc",):
+            continue
+        for q, ss in spec.walk():
+            if q[:len(tgt)] != tgt or (q == tgt and via is None) or not isinstance(ss["formula"], dict):
+                continue
+            try:
+                args = sample_args(ss["formula"]["params"])
+            except Exception:
+                continue
+            d = (inst[0], tuple(inst[1]) + tuple(("child", n) for n in q[len(tgt):]) + (("item", args),))
+            if d not in insts and d not in out:
+                out.append(d)
+    return out
 
 
 def inst_path(inst):
@@ -348,6 +506,16 @@ def check_instance(m, spec, inst, old, phase):
                         if any(v[0] == "v" for d in got.values() for v in d.values()):
                             raise Fail("old-handle-serves", "old handle of %s serves values though the instance "
                                        "cannot exist: %r" % (code_path("m", ip), got), ("old", rp, None))
+                else:
+                    found, want = params_at(exp[1], rp)
+                    try:
+                        have = h.parameters
+                    except DeletedObjectError:
+                        continue
+                    if found and have != want:
+                        raise Fail("old-handle-stale-params", "old space handle %s%s is alive and has parameters %r, "
+                                   "its base now has %r" % (code_path("m", ip), "".join("." + x for x in rp), have, want),
+                                   ("old-params", rp, None))
                 continue
             ev = None
             if exp != ("exc",):
@@ -373,9 +541,15 @@ def check_instance(m, spec, inst, old, phase):
                        % (code_path("m", ip), got), ("new", (), None))
         return handles_of(o)
     _, names, vals = exp
-    if names_tree(o) != names:
-        raise Fail("names-differ", "%s has members %r, its base has %r" % (code_path("m", ip), names_tree(o), names),
-                   ("names", (), None))
+    have = names_tree(o)
+    if names_only(have) != names_only(names):
+        raise Fail("names-differ", "%s has members %r, its base has %r" % (code_path("m", ip), names_only(have),
+                                                                          names_only(names)), ("names", (), None))
+    if have != names:
+        rp = first_params_diff(have, names)
+        raise Fail("params-differ", "%s%s.parameters == %r, in its base %r" % (
+            code_path("m", ip), "".join("." + x for x in rp), params_at(have, rp)[1], params_at(names, rp)[1]),
+            ("params", rp, None))
     got = eval_space(o)
     if got != vals:
         for k in sorted(set(got) | set(vals)):
@@ -399,19 +573,24 @@ def check_instance(m, spec, inst, old, phase):
     return new
 
 
-def make_script(spec0, insts, hist, inst, probe, evals, flat=None):
-    """replay: rebuild, replay the history (evaluating where the case did), compare with the static copy"""
+def make_script(spec0, insts, hist, inst, probe, evals, flat=None, prep="eval"):
+    """replay: rebuild, replay the history (evaluating where the case did), compare with the static copy.
+    prep: what is done with the instances before the first edit (eval: created + evaluated, touch: created only,
+    none: nothing)"""
     L = [SCRIPT_HEAD, code_build(spec0, "m", "M")]
     ip = inst_path(inst)
     tgt_expr = code_path("m", ip)
     kind, rp, a = probe
     relexpr = "".join("." + x for x in rp)
-    allinst = ["lambda: " + code_path("m", inst_path(i)) for i in insts]
-    L.append("def touch():\n    for f in [%s]:\n        try:\n            s = f(); [c(*a) for c in s.cells.values() "
-             "for a in ([()] if not c.parameters else [(0,), (1,), (2,)][:3]) if len(a) == len(c.parameters)]\n"
+    allinst = ["lambda: " + code_path("m", inst_path(i)) for i in list(insts) + ([inst] if inst not in insts else [])]
+    L.append("def touch(evaluate=True):\n    for f in [%s]:\n        try:\n            s = f(); [c(*a) for c in s.cells.values() "
+             "for a in ([()] if not c.parameters else [(0,), (1,), (2,)][:3]) if evaluate and len(a) == len(c.parameters)]\n"
              "        except Exception: pass" % ", ".join(allinst))
-    L.append("touch()")
-    L.append("try: h = %s%s\nexcept Exception: h = None" % (tgt_expr, relexpr))
+    if prep != "none":
+        L.append("touch()" if prep == "eval" else "touch(evaluate=False)   # instances created, nothing evaluated")
+        L.append("try: h = %s%s\nexcept Exception: h = None" % (tgt_expr, relexpr))
+    else:
+        L.append("h = None")
     sp = spec0.copy()
     for i, op in enumerate(hist):
         L.append(code_op(op, "m"))
@@ -443,6 +622,12 @@ def make_script(spec0, insts, hist, inst, probe, evals, flat=None):
         L.append("dead = val(lambda: h.name) == ('deleted',)")
         L.append("print('old handle dead:', dead, 'identical:', new is h)")
         L.append("sys.exit(0 if dead or new is h else 1)")
+    elif kind in ("params", "old-params"):
+        L.append("got = val(lambda: %s.parameters)" % ("h" if kind == "old-params" else tgt_expr + relexpr))
+        L.append("want = val(lambda: %s.parameters)" % want_expr if have_static else "want = ('exc',)")
+        L.append("print('parameters of %s:', got, 'in the static copy of the base:', want)"
+                 % ("the old handle" if kind == "old-params" else "the dynamic copy"))
+        L.append("sys.exit(0 if got == want%s else 1)" % (" or got == ('deleted',)" if kind == "old-params" else ""))
     elif kind == "names":
         L.append("def tree(s): return (sorted(s.cells), {n: tree(c) for n, c in sorted(s.named_spaces.items())})")
         L.append("a = tree(%s); b = %s" % (tgt_expr, "tree(%s)" % want_expr if have_static else "None"))
@@ -494,8 +679,8 @@ def edit_site(spec, insts, op):
     return "elsewhere"
 
 
-def edits(spec, insts, meta):
-    E = _edits(spec, insts, meta)
+def edits(spec, insts, meta, del_forms=False):
+    E = _edits(spec, insts, meta, del_forms)
     targets = [r[1] for _, ss in spec.walk() for r in ss["refs"].values() if r[0] == "obj"]
     targets += [r[1] for r in spec.refs.values() if r[0] == "obj"]
 
@@ -512,7 +697,7 @@ def edits(spec, insts, meta):
     return [e for e in E if not dangles(e)]
 
 
-def _edits(spec, insts, meta):
+def _edits(spec, insts, meta, del_forms=False):
     E = []
     paths = [p for p, _ in spec.walk()]
     for p, ss in spec.walk():
@@ -558,6 +743,9 @@ def _edits(spec, insts, meta):
         f = ss["formula"]
         if isinstance(f, dict):
             E.append(("set_sformula", p, None))
+            if del_forms:                      # the other public spellings of the deletion
+                for form in ("del_formula", "parameters", "set_formula"):
+                    E.append(("set_sformula", p, None, form))
             if "zz" not in f["params"]:
                 E.append(("set_sformula", p, dict(f, params=f["params"] + ", zz=3")))
             if not f.get("refs"):
@@ -570,8 +758,19 @@ def _edits(spec, insts, meta):
                 E.append(("set_sformula", p, dict(f, refs=dict(f.get("refs") or {}, **{own_lits[0]: first + " + 500"}))))
             E.append(("clear_items", p))
             E.append(("clear_space", p))
-        elif f is None and len(p) == 2:
-            E.append(("set_sformula", p, {"params": "k"}))
+        elif f is None:
+            # the space gets its FIRST parameter formula, in every public spelling (`s.formula = ...`,
+            # `s.parameters = ...`, `s.set_formula(...)`), at any depth: plain child / grandchild spaces of
+            # parametrised spaces, plain spaces chosen through 'base'/'bases', unrelated plain spaces.
+            # (spaces that are bases of others are left to the inheritance properties)
+            if len(p) == 2:
+                E.append(("set_sformula", p, {"params": "k"}))
+            if not spec.subs(p):
+                pk = [x for x in ("pk", "pk_") if x not in taken][0]
+                if len(p) != 2:
+                    E.append(("set_sformula", p, {"params": pk}))
+                E.append(("set_sformula", p, {"params": pk}, "parameters"))
+                E.append(("set_sformula", p, {"params": pk + ", pj=2", "refs": {"fr": pk + " + pj"}}, "set_formula"))
     for gn, r in spec.refs.items():
         if r[0] == "lit":
             E.append(("set_ref", (), gn, lit(r[1] + 1)))
@@ -609,34 +808,92 @@ def inst_kind(inst):
 
 # ------------------------------------------------------------------------------------------ workers
 
-def run_history(tname, hist, evals):
-    key = ("hist", tname, tuple(map(repr, hist)), tuple(evals))
-    return guarded(lambda: _run_history(tname, hist, evals), key, (tname[2:], hist[-1][0] if hist else "construction"),
+def template(tname):
+    return {t.__name__: t for t in TEMPLATES + PART_A_ONLY + F_TEMPLATES}[tname]
+
+
+def hist_key(kind, hist, evals, prep):
+    return ("hist", kind, tuple(map(repr, hist)), tuple(evals)) + ((("prep", prep),) if prep != "eval" else ())
+
+
+def run_history(tname, hist, evals, prep="eval"):
+    key = hist_key(tname, hist, evals, prep)
+    return guarded(lambda: _run_history(tname, hist, evals, prep), key,
+                   (tname[2:], hist[-1][0] if hist else "construction"),
                    "history %s" % "; ".join(code_op(e) for e in hist))
 
 
-def _run_history(tname, hist, evals):
-    """one history on one template; returns a record"""
-    tmpl = {t.__name__: t for t in TEMPLATES}[tname]
-    kind, spec0, insts, meta = tmpl()
-    insts = meta.get("hist_insts", insts)
+def copy_tags(spec, inst, p):
+    """how a dynamic copy of the edited space `p` is contained in the instance (features of the case):
+    copy:root (the instance is a copy of p, chosen via-base-key / via-bases-key), copy:child / copy:descendant
+    (p is replicated inside the instance), copy:indexed (the instance is an item of a dynamic copy of p, or of
+    what p's copy contains), copy:none"""
+    p = tuple(p)
+    cur, via, through = tuple(inst[0]), None, False
+    try:
+        if not spec.has_space(cur):
+            raise NoInstance()
+        for n, st in enumerate(inst[1]):
+            if st[0] == "item":
+                if n > 0 and cur[:len(p)] == p:
+                    through = True               # an item step taken on a dynamic copy of p (or below it)
+                f = spec.space(cur)["formula"]
+                if not isinstance(f, dict):
+                    raise NoInstance()
+                via = None
+                if f.get("base") is not None:
+                    if not spec.has_space(f["base"]):
+                        raise NoInstance()
+                    cur, via = tuple(f["base"]), f.get("base_key") or "base"
+            else:
+                if st[1] not in spec.space(cur)["spaces"]:
+                    raise NoInstance()
+                cur = cur + (st[1],)
+    except NoInstance:
+        return ["copy:indexed" if through else "copy:none"]
+    if through:
+        return ["copy:indexed"]
+    if p[:len(cur)] != cur:
+        return ["copy:none"]
+    d = len(p) - len(cur)
+    tags = ["copy:" + ("root" if d == 0 else "child" if d == 1 else "descendant")]
+    if via:
+        tags.append("via-%s-key" % via)
+    return tags
+
+
+def _run_history(tname, hist, evals, prep="eval"):
+    """one history on one template; returns a record.
+    prep = what happens to the instances before the first edit: "eval" created, compared with the static copy
+    (= every cells evaluated), handles kept; "touch" created only, handles kept; "none" nothing"""
+    kind, spec0, insts, meta = template(tname)()
+    insts = list(meta.get("hist_insts", insts))
     reset()
-    key = ("hist", kind, tuple(map(repr, hist)), tuple(evals))
+    key = hist_key(kind, hist, evals, prep)
     rec = {"key": key, "nontrivial": False, "monitors": [], "notes": []}
     m = build(spec0, "M")
     spec = spec0.copy()
     flat = live_flat(m, spec)
     handles = {}
-    try:
-        for inst in insts:
-            handles[inst] = check_instance(m, flat, inst, None, "initial")
-    except Fail as f:
-        rec["fail"] = dict(tags=("construction", kind, f.symptom), what=f.what, case=key,
-                           script=make_script(spec0, insts, [], inst, f.probe, [], flat))
-        rec["nontrivial"] = True
-        return rec
+    if prep == "eval":
+        try:
+            for inst in insts + derived_insts(flat, insts):
+                handles[inst] = check_instance(m, flat, inst, None, "initial")
+        except Fail as f:
+            rec["fail"] = dict(tags=("construction", kind, f.symptom), what=f.what, case=key,
+                               script=make_script(spec0, insts, [], inst, f.probe, [], flat))
+            rec["nontrivial"] = True
+            return rec
+    elif prep == "touch":
+        for inst in insts + derived_insts(flat, insts):
+            try:
+                handles[inst] = handles_of(access(m, inst))
+            except DeletedObjectError:
+                raise
+            except Exception:
+                pass                       # judged by the construction cases
     for i, op in enumerate(hist):
-        before = {inst: expected(flat, inst) for inst in insts}
+        before = {inst: expected(flat, inst) for inst in handles}
         try:
             live_apply(m, op)
         except DeletedObjectError:
@@ -657,12 +914,15 @@ def _run_history(tname, hist, evals):
         if not evals[i] and i < len(hist) - 1:
             continue
         changed = False
-        for inst in insts:
+        for inst in handles:
             if handles.get(inst) and (expected(flat, inst) != before[inst] or op[0] in
                                       ("clear_items", "clear_space", "clear_model", "clear_at", "del_item")):
                 changed = True
         rec["nontrivial"] = rec["nontrivial"] or changed
-        for inst in insts:
+        derived = derived_insts(flat, insts)
+        todo = insts + derived
+        todo += [x for x in handles if x not in todo]       # instances indexed earlier whose formula is gone
+        for inst in todo:
             try:
                 handles[inst] = check_instance(m, flat, inst, handles.get(inst), "after-edit")
             except Fail as f:
@@ -677,27 +937,36 @@ def _run_history(tname, hist, evals):
                     tags.append("ref-change" if op[2] in holder else "ref-new")
                 if op[0] == "set_sformula":
                     tags.append("formula-del" if op[2] is None else "formula-set")
+                    if op[2] is not None:
+                        tags.append("formula-first" if spec_before.space(op[1])["formula"] is None
+                                    else "formula-replace")
+                    tags.append("form:" + sformula_form(op))
+                    tags += copy_tags(spec_before, inst, op[1])
+                if inst not in insts:
+                    tags.append("index-the-copy")
+                if prep != "eval":
+                    tags.append("prep:" + prep)
                 if i > 0:
                     tags.append("step%d" % (i + 1))
                 rec["fail"] = dict(tags=tuple(tags), what="after %s: %s" % (code_op(op), f.what), case=key,
-                                   script=make_script(spec0, insts, hist[:i + 1], inst, f.probe, evals, flat))
+                                   script=make_script(spec0, insts, hist[:i + 1], inst, f.probe, evals, flat, prep))
                 rec["nontrivial"] = True
                 return rec
     return rec
 
 
-def run_history_min(tname, hist, evals):
+def run_history_min(tname, hist, evals, prep="eval"):
     """run a history; when it fails after more than one edit, look for a shorter failing sub-history (single
     edits, then ordered pairs, every step evaluated) and report that one's features, so that one defect gets one
     tag set however long the history that ran into it"""
-    rec = run_history(tname, hist, evals)
+    rec = run_history(tname, hist, evals, prep)
     if not rec.get("fail") or len(hist) < 2:
         return rec
     subs = [[e] for e in hist] + [[a, b] for i, a in enumerate(hist) for b in hist[i + 1:]]
     for sub in subs:
         if len(sub) >= len(hist) and all(evals):
             continue
-        r2 = run_history(tname, sub, tuple([True] * len(sub)))
+        r2 = run_history(tname, sub, tuple([True] * len(sub)), prep)
         if r2.get("fail"):
             f = dict(r2["fail"])
             f["what"] = f["what"] + "   [minimised from the history %s]" % "; ".join(code_op(e) for e in hist)
@@ -717,7 +986,7 @@ def run_history_min(tname, hist, evals):
 def worker_hist(job):
     """all histories `prefix + [e]`; the prefix alone is the business of the length-1 job"""
     tname, prefix, depth, masks, thin, lo, hi = job
-    tmpl = {t.__name__: t for t in TEMPLATES}[tname]
+    tmpl = template(tname)
     _, spec0, insts, meta = tmpl()
     insts = meta.get("hist_insts", insts)
     pre = run_history(tname, list(prefix), tuple([True] * len(prefix)))
@@ -749,7 +1018,7 @@ def worker_hist(job):
 def worker_random(job):
     tname, seed, length, n = job
     rng = random.Random(seed)
-    tmpl = {t.__name__: t for t in TEMPLATES}[tname]
+    tmpl = template(tname)
     out = []
     for _ in range(n):
         _, spec0, insts, meta = tmpl()
@@ -771,6 +1040,92 @@ def worker_random(job):
             evals[-1] = True
             out.append(run_history_min(tname, hist, tuple(evals)))
     return out
+
+
+# ------------------------------------------------------------------------------------------ part F: first formula
+
+def op_space(op):
+    """the space an edit is located in (None: model level)"""
+    if op[0] == "clear_model" or not op[1]:
+        return None
+    p = tuple(op[1])
+    if op[0] in ("set_cformula", "rename_cells", "set_prop", "clear_cells", "set_input"):
+        p = p[:-1]
+    return p
+
+
+def related(op, p, tier):
+    """quick: the edit is located in the space p itself; thorough: also in an ancestor or a descendant of p"""
+    q = op_space(op)
+    if tier == "quick":
+        return q == p
+    return q is not None and (q[:len(p)] == p or p[:len(q)] == q)
+
+
+def is_first_formula(spec, e):
+    return e[0] == "set_sformula" and e[2] is not None and spec.space(e[1])["formula"] is None
+
+
+def part_f_histories(tname, tier):
+    """histories around 'a plain space gets its first parameter formula while instances containing a dynamic copy
+    of it are alive': (1) the edit alone x {instances evaluated, created only, not created}; (2) the edit followed
+    by every edit of the alphabet (quick: of the core kinds, every third pair but all formula edits) located in that space (thorough: also in its ancestors or descendants; incl.
+    replacing / deleting the formula in every spelling); (3) every such edit of the core kinds first (incl. deleting the formula, so that
+    the space is plain *again*; creating the plain space), then the first-formula edit.  -> [(hist, evals, prep)]"""
+    kind, spec0, insts, meta = template(tname)()
+    insts = meta.get("hist_insts", insts)
+    full = template(tname) in F_TEMPLATES        # standard templates: [e] with prep eval is a length-1 history anyway
+    out = []
+    firsts = [e for e in edits(spec0, insts, meta) if is_first_formula(spec0, e)]
+    for e in firsts:
+        for prep in (("eval",) if full else ()) + ("touch", "none"):
+            out.append(([e], (True,), prep))
+    if not full:
+        return out
+    masks2 = [(True, True)] + ([(False, True)] if tier != "quick" else [])
+    n = 0
+    for e in firsts:
+        s1 = spec0.copy().apply(e)
+        for q in edits(s1, insts, meta, del_forms=True):
+            if tier == "quick" and q[0] not in CORE_KINDS:
+                continue
+            if related(q, tuple(e[1]), tier):
+                n += 1
+                if tier == "quick" and n % 3 and q[0] != "set_sformula":
+                    continue                   # quick: every third pair (the spellings of e rotate over the q's)
+                for ev in masks2:
+                    out.append(([e, q], ev, "eval"))
+                if q[0] == "set_sformula":
+                    out.append(([e, q], (True, True), "touch"))
+    for p0 in edits(spec0, insts, meta, del_forms=True):
+        if p0[0] not in CORE_KINDS:
+            continue
+        try:
+            s1 = spec0.copy().apply(p0)
+        except Exception:
+            continue
+        for e in edits(s1, insts, meta):
+            if is_first_formula(s1, e) and related(p0, tuple(e[1]), tier):
+                n += 1
+                if tier == "quick" and n % 3 and p0[0] != "set_sformula":
+                    continue
+                for ev in masks2:
+                    out.append(([p0, e], ev, "eval"))
+    return out
+
+
+def worker_f(job):
+    tname, cases = job
+    return [run_history_min(tname, list(h), tuple(ev), prep) for h, ev, prep in cases]
+
+
+def part_f_jobs(tier):
+    jobs = []
+    for t in F_TEMPLATES + TEMPLATES:
+        cases = part_f_histories(t.__name__, tier)
+        for lo in range(0, len(cases), 6):
+            jobs.append(("F", t.__name__, cases[lo:lo + 6]))
+    return jobs
 
 
 # ------------------------------------------------------------------------------------------ part A: construction
@@ -802,7 +1157,7 @@ def spellings(params, args):
 
 
 def part_a(res):
-    for t in TEMPLATES + PART_A_ONLY:
+    for t in TEMPLATES + PART_A_ONLY + F_TEMPLATES:
         try:
             _part_a(res, t)
         except Exception as e:
@@ -940,7 +1295,11 @@ def _part_a(res, t):
 # ------------------------------------------------------------------------------------------ run
 
 def run(res, tier, seed):
-    res.bound = ("7 model templates (inherited cells from 2-3 bases; child spaces depth <= 2; parametrised child "
+    res.bound = ("part F: 5 templates whose instances contain dynamic copies of plain spaces (child, grandchild, below a "
+                 "parametrised child S[1].C[2], chosen by 'base' / 'bases' / 'base' = a child space) x every plain space "
+                 "x 3 spellings of the first parameter formula x {instances evaluated, created only, absent} x <= 1 "
+                 "related edit before or after (quick: located in the same space, core kinds, every third pair; thorough: also in ancestors "
+                 "/ descendants, with and without evaluation in between); then 7 model templates (inherited cells from 2-3 bases; child spaces depth <= 2; parametrised child "
                  "S[1].C[2]; item of item S[2][3]; formula choosing another base + extra refs; formula reading "
                  "cells; object refs relative/absolute; parameters/returned refs shadowing refs and globals; "
                  "defaults), <= 2 parameters with/without defaults, <= 4 instances each, every argument spelling; "
@@ -949,12 +1308,21 @@ def run(res, tier, seed):
                  "random length 3-4), old handles of instance / child spaces / cells kept across every edit")
     res.rule = ("edit alphabet generated from the current definitions: every space x {new/del/rename/override cells, "
                 "formula change of every defined or derived cells, is_cached/allow_none, ref new/change/del/shadow, "
-                "new/del/rename child or top space, add/remove bases, parameter formula change/delete/add, clear ops, "
-                "clear_at/del item}; after each edit every instance is compared with a static copy rebuilt from the "
+                "new/del/rename child or top space, add/remove bases, parameter formula change/delete, first parameter "
+                "formula of every plain space that is not a base (formula= / parameters= / set_formula()), clear ops, "
+                "clear_at/del item}; after each edit every instance - and one item of every parametrised space replicated "
+                "inside it - is compared (cells values, member names, parameters) with a static copy rebuilt from the "
                 "definitions.  non-trivial = an instance held handles and its expected content changed (or it was "
                 "discarded) by the edit; distinct = distinct (template, history, evaluation mask)")
     t0 = time.time()
     part_a(res)
+    res.notes.append("part A (construction/identity/isolation) %.1fs" % (time.time() - t0))
+    # part F first: it must always complete, whatever happens to the long tail below
+    t1 = time.time()
+    n0 = res.evaluations
+    complete_f = run_jobs(res, part_f_jobs(tier), _job)
+    res.notes.append("part F (first parameter formula of a plain space with live dynamic copies) %d histories, %.1fs%s"
+                     % (res.evaluations - n0, time.time() - t1, "" if complete_f else " INCOMPLETE"))
     jobs = []
     names = [t.__name__ for t in TEMPLATES]
     # length 1: one job per template
@@ -981,16 +1349,17 @@ def run(res, tier, seed):
         for k in range(224):
             rj.append(("R", names[k % len(names)], seed * 1000 + k, 3 + (k % 2), 3))
         complete = run_jobs(res, rj, _job) and complete
-    res.exhaustive = bool(complete)
-    res.notes.append("part A (construction/identity/isolation) %.1fs" % (time.time() - t0))
+    res.exhaustive = bool(complete and complete_f)
 
 
 def _job(job):
     if job[0] == "R":
         return worker_random(job[1:])
+    if job[0] == "F":
+        return worker_f(job[1:])
     tname, prefix, depth, masks, thin, lo, hi = job
     if depth == 1:
-        tmpl = {t.__name__: t for t in TEMPLATES}[tname]
+        tmpl = template(tname)
         _, spec0, insts, meta = tmpl()
         insts = meta.get("hist_insts", insts)
         return [run_history(tname, [e], (True,)) for e in edits(spec0, insts, meta)[lo:hi]]
